@@ -21,11 +21,11 @@ def run(rep):
                         "half-of-night is exempt from the flag clause (property)"]
     obls = [(policy.policy_clauses, (p, ["frame"], "named")) for p in policy.POLICIES if p != "None"]
     results = base.run_obligations(rep, obls)
-    if any((x["cands"] or x["inconclusive"]) for x in results):
+    if any((x["cands"] or x["inconclusive"]) for x in results) or rep.tier == "thorough":
         a = pp.confirm_kadj(rep, results, "C08")
         # public-API judge: every policy against policy None (the good-day policies cannot be driven at kernel level)
         open_pols = sorted({x["name"].split("[")[1].split("]")[0] for x in results if (x["cands"] or x["inconclusive"]) and "[" in x["name"]})
-        b = pp.frame_grid(rep, open_pols or None)
+        b = pp.frame_grid(rep, None if rep.tier == "thorough" else (open_pols or None))
         unexplained = [c for x in results for c in x["cands"] if not c.get("known_role")]
         if unexplained and not [v for v in rep.violations if v.key != "interval-flag"]:
             rep.inconclusive.append("solver counterexamples were not reproduced natively; first: %r" % (unexplained[0],))
